@@ -27,6 +27,8 @@ type histCfg struct {
 	afterAccept  func()
 	up4          bool
 	afterRestart func() bool
+	// beforeRestart may change the configuration the next incarnation starts with
+	beforeRestart func()
 }
 
 func scenarioC03(r *Run) {
@@ -64,6 +66,9 @@ func scenarioC03(r *Run) {
 		checkImage: func(ctx, cause string) { r.CheckBESSImage("C03", ctx, cause) }})
 	r.CheckNoPanics("C03")
 }
+
+// slowDatapath: the run injects datapath RPCs that take seconds.
+func slowDatapath(r *Run) bool { return r.W.P4.Faults.SlowDen > 0 || r.W.Bess.Faults.SlowDen > 0 }
 
 // runHistory drives a seeded request history and checks the datapath image
 // after every accepted response.
@@ -113,6 +118,12 @@ func runHistory(r *Run, g *Gen, hc histCfg) {
 			}
 			s := g.Session(p, sh)
 			res := p.Establish(s)
+			if res.Rx == nil && r.AgentAlive() && slowDatapath(r) {
+				// the peer gave up waiting while the agent is still at it: the model
+				// cannot follow the agent any further in this run
+				r.Inconclusive++
+				return
+			}
 			if g.UP4 && sh.ExtraPDRs > 0 && res.Accepted {
 				r.Taint(s.UPSEID, "up4-multi-pdr-session")
 			}
@@ -138,6 +149,10 @@ func runHistory(r *Run, g *Gen, hc histCfg) {
 				r.Taint(s.UPSEID, m.Trigger)
 			}
 			res := s.Peer.Modify(s, m)
+			if res.Rx == nil && r.AgentAlive() && slowDatapath(r) {
+				r.Inconclusive++
+				return
+			}
 			r.Op("modify cp=%d up=%d %s -> accepted=%v cause=%d", s.CPSEID, s.UPSEID, m.Describe(), res.Accepted, res.Cause)
 			r.Skel(fmt.Sprintf("mod:%s:%v", m.Tag, res.Accepted))
 			if res.Accepted {
@@ -150,6 +165,10 @@ func runHistory(r *Run, g *Gen, hc histCfg) {
 		case 2: // delete
 			s := live[r.Ch.Choose(len(live), "sess")]
 			res := s.Peer.Delete(s)
+			if res.Rx == nil && r.AgentAlive() && slowDatapath(r) {
+				r.Inconclusive++
+				return
+			}
 			r.Op("delete cp=%d up=%d -> accepted=%v", s.CPSEID, s.UPSEID, res.Accepted)
 			r.Skel(fmt.Sprintf("del:%v", res.Accepted))
 			if res.Accepted {
@@ -256,6 +275,9 @@ func runHistory(r *Run, g *Gen, hc histCfg) {
 					q.Associated = false
 				}
 				r.Sim.RunFor(time.Duration(1+r.Ch.Choose(4, "restart-delay")) * time.Second)
+				if hc.beforeRestart != nil {
+					hc.beforeRestart()
+				}
 				r.StartAgent()
 				if !r.AgentAlive() {
 					return
